@@ -662,6 +662,7 @@ def handleAcc (t : TextTable) (form da ka db kb same obs : String) : Option Line
     | .newf | .getf | .fmtargs | .fmtwith | .floorf => if same == "0" && o then .prop s!"acc.{form}.oracle" "a unit of another quantity is accepted" else .ok
     | .from_ =>
       if differ && o && !(A.dim == B.dim && (A.kind == 0 || B.kind == 0)) then .prop "acc.from.oracle" "a conversion between different dimensions or two non-default kinds compiles"
+      else if differ && o && (A.kind == e.tt.kind || B.kind == e.tt.kind) then .prop "acc.from.oracle" "a conversion between the temperature kind and the default kind compiles (a point is not an interval)"
       else .ok
     | .sqrt => if o && !(A.dim.all (· % 2 == 0)) then .prop "acc.sqrt.oracle" "a root of non-divisible exponents compiles" else .ok
     | .cbrt => if o && !(A.dim.all (· % 3 == 0)) then .prop "acc.cbrt.oracle" "a root of non-divisible exponents compiles" else .ok
